@@ -23,7 +23,8 @@ for item in args:
         expect = None
     else:
         patch = item
-        meta = json.load(open(item.replace(".patch", ".json")))
+        mj = item.replace(".patch", ".json")
+        meta = json.load(open(mj)) if os.path.exists(mj) else {"property": ""}
         props = meta["property"].split(",")
         expect = meta.get("expect_key")
     if props_override:
